@@ -104,9 +104,9 @@ def alone(kind, t, flow, bufsize):
     return blocks, []
 
 
-def check_split_run(k0: int, k1: int, bufsize: int, xs: List[int]) -> bool:
+def check_split_run(k0: int, k1: int, k2: int, bufsize: int, xs: List[int]) -> bool:
     """
-    pre: 0 <= k0 <= 6 and 0 <= k1 <= 6
+    pre: 0 <= k0 <= 6 and 0 <= k1 <= 6 and -1 <= k2 <= 1
     pre: 1 <= bufsize <= B.BUF
     pre: len(xs) <= B.FLOW
     pre: h.in_shard(k0 + 7 * (k1 % 2))
@@ -114,19 +114,20 @@ def check_split_run(k0: int, k1: int, bufsize: int, xs: List[int]) -> bool:
     """
     k0 = h.concrete(k0, 0, 6)
     k1 = h.concrete(k1, 0, 6)
+    k2 = h.concrete(k2, -1, 1)       # optional third branch: none | mutator | Variable
+    kinds = [k0, k1] + ([k2] if k2 >= 0 else [])
     with fast_jinja():
-        s = Split([make_branch(k0, 0), make_branch(k1, 1)], bufsize=bufsize)
+        s = Split([make_branch(k, t) for t, k in enumerate(kinds)], bufsize=bufsize)
         got = list(s.run(iter(mkflow(xs))))
-        b0, c0 = alone(k0, 0, mkflow(xs), bufsize)
-        b1, c1 = alone(k1, 1, mkflow(xs), bufsize)
+        alones = [alone(k, t, mkflow(xs), bufsize) for t, k in enumerate(kinds)]
     want = []
-    nblocks = max(len(b0), len(b1))
+    nblocks = max([len(a[0]) for a in alones])
     for i in range(nblocks):
-        if i < len(b0):
-            want += b0[i]
-        if i < len(b1):
-            want += b1[i]
-    want += c0 + c1
+        for blocks, _ in alones:
+            if i < len(blocks):
+                want += blocks[i]
+    for _, comp in alones:
+        want += comp
     if 6 in (k0, k1):
         # a stopping branch is finalised inside the block where it stops: only
         # the multiset of results is compared here (the schedule is C03's)
@@ -316,8 +317,9 @@ def check_accumulator(kind: int, ops: List[int], cs: List[int]) -> bool:
 
 CONDITIONS = [
     dict(fn="check_split_run", shards=(14, 14), budget=(80, 1200),
-         smoke=["check_split_run(0, 1, 1, [3, 4])", "check_split_run(4, 0, 2, [3, 4])",
-                "check_split_run(5, 3, 2, [3])", "check_split_run(2, 2, 1, [])", "check_split_run(6, 0, 2, [3, 4])", "check_split_run(6, 4, 3, [3, 4, 5])"]),
+         smoke=["check_split_run(0, 1, -1, 1, [3, 4])", "check_split_run(4, 0, -1, 2, [3, 4])",
+                "check_split_run(5, 3, 0, 2, [3])", "check_split_run(2, 2, -1, 1, [])", "check_split_run(6, 0, 1, 2, [3, 4])",
+                "check_split_run(6, 4, 0, 3, [3, 4, 5])"]),
     dict(fn="check_split_fill", budget=(70, 600),
          smoke=["check_split_fill(4, 5, False, [3, 4])", "check_split_fill(4, 4, True, [3, 4])"]),
     dict(fn="check_accumulator", shards=(18, 18), budget=(90, 1500),
